@@ -57,7 +57,14 @@ def run_program(prog, ctx=None, plug_map=None, before_execute=None, keep_raw=Fal
   """Builds and executes the program once.  Returns Obs."""
   htf = ohtf.reset_case(cancel_timeout_s=0.05, plug_teardown_timeout_s=0.05, **progs.conf_values(prog))
   ctx = ctx or progs.Ctx()
-  test, tsarg = progs.build_test(prog, ctx, htf, plug_map)
+  try:
+    test, tsarg = progs.build_test(prog, ctx, htf, plug_map)
+  except Exception as e:  # pylint: disable=broad-except
+    # the declaration itself was refused: reported like an execute() that raised (every generated program is a valid one)
+    o = Obs()
+    o.ctx, o.test, o.exc, o.ret, o.wall = ctx, None, e, None, 0.0
+    o.events, o.calls, o.thread_exceptions, o.cb_records, o.raw_record, o.record = [], ctx.calls(), [], [], None, None
+    return o
   cb_records = []
   for i, raises in enumerate(prog['opts'].get('callbacks') or []):
     def cb(rec, i=i, raises=raises):
